@@ -20,7 +20,9 @@ def make_cases(tier, rng):
                       "served": [{"v": v, "proto": rng.choice(["netrpc", "grpc"])} for v in S],
                       "grpc_factory": rng.random() < 0.7, "offered": rng.choice(subs + [[]]),
                       # entries of the offered list that are not numbers: ignored, reported on stderr, never on stdout
-                      "offered_junk": rng.sample(["", " 2", "v1", "two", "1.0", "0x1"], rng.choice([0, 0, 1, 2]))})
+                      "offered_junk": rng.sample(["", " 2", "v1", "two", "1.0", "0x1"], rng.choice([0, 0, 1, 2])),
+                      # somebody connects to the socket before the line is out (every third case)
+                      "early_connect": len(cases) % 3 == 1})
     # every cookie combination (with a random serve configuration each)
     for cc in CCFG:
         for ce in CENV:
@@ -31,6 +33,12 @@ def make_cases(tier, rng):
         for tls in TLS:
             for _ in range(2 if tier == "quick" else 250):
                 add("normal", "exact", mv, tls)
+            # one more with an early connection, all served sets gRPC (so that a muxer, if any, is in place)
+            add("normal", "exact", mv, tls)
+            cases[-1]["early_connect"] = True
+            for sv in cases[-1]["served"]:
+                sv["proto"] = "grpc"
+            cases[-1]["grpc_factory"] = True
     return cases
 
 
